@@ -3,6 +3,7 @@ package props
 import (
 	"bytes"
 	"context"
+	"crypto/tls"
 	"errors"
 	"fmt"
 	"net"
@@ -563,6 +564,157 @@ func c20ServeAfterRun(c c20ServeAfterCase) Verdict {
 	return v
 }
 
+// ---- Close ends every connection and every Serve, whatever state they are in ----
+
+type c20EndsCase struct {
+	Implicit  bool `json:"implicit_tls,omitempty"` // the listeners hand out TLS connections (handshake in the handler)
+	Silent    int  `json:"silent"`                 // connections that never send an octet (under TLS: the handshake is pending)
+	Greeted   int  `json:"greeted"`                // connections that have greeted and sit idle
+	Listeners int  `json:"listeners"`              // 1-2 listeners served by the one server
+	// AppClosed = k > 0: the application has closed listener k itself before
+	// it calls Server.Close (whose own Close of that listener then reports an
+	// error): everything else must be ended all the same.
+	AppClosed int `json:"app_closed,omitempty"`
+}
+
+// c20EndsRun: the clients do nothing at all to help - they neither disconnect
+// nor speak. When Server.Close has returned, every connection has been ended
+// by the server, every Serve call has returned, and no goroutine is left.
+func c20EndsRun(c c20EndsCase) Verdict {
+	cfg := harness.Config{}
+	if c.Implicit {
+		cfg.TLS = "implicit"
+	}
+	r := harness.NewRig(cfg, harness.Script{})
+	listeners := []*harness.Listener{r.L}
+	var serve2 chan error
+	if c.Listeners > 1 {
+		l2 := harness.NewListener(r.Hub)
+		listeners = append(listeners, l2)
+		serve2 = make(chan error, 1)
+		var nl net.Listener = l2
+		if c.Implicit {
+			nl = tls.NewListener(l2, harness.ServerTLS())
+		}
+		go func() { serve2 <- r.Srv.Serve(nl) }()
+	}
+	var clients, servers []*harness.End
+	abortAll := func() {
+		for _, e := range clients {
+			e.Abort()
+		}
+	}
+	for i := 0; i < c.Silent; i++ {
+		cl, sv := listeners[i%len(listeners)].Dial()
+		clients, servers = append(clients, cl), append(servers, sv)
+	}
+	for i := 0; i < c.Greeted; i++ {
+		w, err := r.Dial()
+		if err != nil {
+			abortAll()
+			w.Abort()
+			r.ForceClose()
+			return Verdict{Inconclusive: "dial: " + err.Error()}
+		}
+		w.WaitQuiet()
+		w.Exchange([]byte("EHLO cli\r\n"))
+		clients, servers = append(clients, w.C), append(servers, w.S)
+	}
+	// every handler has got as far as it can: it waits for its peer
+	if !r.Hub.WaitUntil(func() bool {
+		for _, sv := range servers {
+			if !sv.BlockedInReadLocked() {
+				return false
+			}
+		}
+		return true
+	}, harness.Watchdog) {
+		abortAll()
+		r.ForceClose()
+		return Verdict{Inconclusive: "a handler never came to wait for its peer"}
+	}
+	if c.AppClosed > 0 {
+		listeners[(c.AppClosed-1)%len(listeners)].Close()
+	}
+	closed := make(chan error, 1)
+	go func() { closed <- r.Srv.Close() }()
+	var closeErr error
+	select {
+	case closeErr = <-closed:
+	case <-time.After(harness.Watchdog):
+		stacks := harness.BlockedStacks(harness.ServerGoroutines())
+		abortAll()
+		return failf("deadlock", "Server.Close does not return (%d silent and %d idle connections):\n%s", c.Silent, c.Greeted, strings.Join(stacks, "\n\n"))
+	}
+	v := Verdict{NonTrivial: true}
+	if c.Implicit && c.Silent > 0 {
+		v.Classes = append(v.Classes, "tls_handshake_pending")
+	}
+	if c.Listeners > 1 {
+		v.Classes = append(v.Classes, "two_listeners")
+	}
+	if c.AppClosed > 0 {
+		v.Classes = append(v.Classes, "listener_closed_by_the_application_first")
+	} else if closeErr != nil {
+		abortAll()
+		return failf("close-result", "first Server.Close returned %v", closeErr)
+	}
+	open := -1
+	r.Hub.WaitUntil(func() bool {
+		open = -1
+		for i, sv := range servers {
+			if !sv.ClosedLocked() {
+				open = i
+			}
+		}
+		return open < 0
+	}, 300*time.Millisecond)
+	if open >= 0 {
+		kind := "idle after its greeting"
+		if open < c.Silent {
+			kind = "silent"
+			if c.Implicit {
+				kind = "in its TLS handshake"
+			}
+		}
+		abortAll()
+		r.Shutdown()
+		return failf("connection-left-open", "Server.Close has returned (%v) but connection %d (%s) has not been closed by the server", closeErr, open, kind)
+	}
+	for i, l := range listeners {
+		if !l.IsClosed() {
+			abortAll()
+			return failf("still-accepting", "Server.Close has returned (%v) but listener %d was never closed", closeErr, i+1)
+		}
+	}
+	if serve2 != nil {
+		select {
+		case <-serve2:
+		case <-time.After(harness.Watchdog):
+			stacks := harness.BlockedStacks(harness.ServerGoroutines())
+			abortAll()
+			return failf("serve-does-not-return", "Server.Close has returned (%v) but Serve on the second listener has not:\n%s", closeErr, strings.Join(stacks, "\n\n"))
+		}
+	}
+	if err := r.Srv.Close(); err != smtp.ErrServerClosed {
+		abortAll()
+		return failf("second-close", "Close after the server was closed returned %v, want ErrServerClosed", err)
+	}
+	if !r.Shutdown() {
+		stacks := harness.BlockedStacks(harness.ServerGoroutines())
+		abortAll()
+		if len(stacks) > 0 {
+			return failf("serve-does-not-return", "Server.Close has returned (%v) but Serve or a handler has not finished:\n%s", closeErr, strings.Join(stacks, "\n\n"))
+		}
+		return Verdict{Inconclusive: "watchdog in final join"}
+	}
+	abortAll()
+	if len(r.Leftover) > 0 {
+		return failf("goroutine-left", "goroutine left behind:\n%s", r.Leftover[0])
+	}
+	return v
+}
+
 // ---- Close and Shutdown called at the same moment ----
 
 type c20RacingCase struct {
@@ -800,6 +952,7 @@ var (
 	c20Accept *subCheck[c20AcceptCase]
 	c20Late   *subCheck[c20LateCase]
 	c20Racing *subCheck[c20RacingCase]
+	c20Ends   *subCheck[c20EndsCase]
 	c20After  *subCheck[c20ServeAfterCase]
 )
 
@@ -809,6 +962,7 @@ func init() {
 		c20Accept = newSub("C20", "accept", c20AcceptRun)
 		c20Late = newSub("C20", "late", c20LateRun)
 		c20Racing = newSub("C20", "racing", c20RacingRun)
+		c20Ends = newSub("C20", "ends", c20EndsRun)
 		c20After = newSub("C20", "serve-after", c20ServeAfterRun)
 	})
 }
@@ -888,6 +1042,25 @@ func TestC20(t *testing.T) {
 		}
 		if !raceSubtest(t, c20Racing, fmt.Sprintf("racing_%d", i), c20RacingCase{Callers: callers, Conns: 1 + i%2}) {
 			return
+		}
+	}
+	// Close ends everything, whatever the connections are doing (small complete enumeration)
+	endsIdx := 0
+	for _, implicit := range []bool{false, true} {
+		for silent := 0; silent <= 2; silent++ {
+			for greeted := 0; greeted <= 1; greeted++ {
+				for nl := 1; nl <= 2; nl++ {
+					for app := 0; app <= nl; app++ {
+						endsIdx++
+						if silent+greeted == 0 || !mine(endsIdx) {
+							continue
+						}
+						if !raceSubtest(t, c20Ends, fmt.Sprintf("ends_%d", endsIdx), c20EndsCase{Implicit: implicit, Silent: silent, Greeted: greeted, Listeners: nl, AppClosed: app}) {
+							return
+						}
+					}
+				}
+			}
 		}
 	}
 	// Accept fault sequences, exhaustive
